@@ -7,7 +7,7 @@
 PROPS = {
     'C15': dict(
         title='OPEN / NOTIFICATION / capability codecs round-trip and are strict',
-        l0=True, lean=[],
+        l0=True, lean=['CoreBGP.Props.C15'],
         level_text='Round-trip and strictness theorems for the NOTIFICATION / OPEN / capability codecs proved in Lean for all inputs about a model of packet.go; model tied to the code by an L0 differential run and judged by an RFC-level spec evaluated on the implementation output.',
         trivial=[r'^notif\.dec/len0$', r'^open\.dec/err\.1\.2$', r'^addpath\.dec/err0$'],
         rule='L0 differential: grammar-generated valid OPEN/NOTIFICATION/add-path values (sizes drawn at the length-octet boundaries), '
@@ -16,22 +16,22 @@ PROPS = {
     ),
     'C08': dict(title='Receive-side header validation and stream framing', l0=True, lean=['CoreBGP.Props.C08'],
         trivial=[r'^read/m0\.other$'], rule='L0 differential on the reader goroutine over in-memory connections with varying segmentations: header length values (quick: protocol-relevant sample + 400 random; thorough: all 65536) x types, all 256 types x boundary lengths, every marker position, every truncation; NOTIFICATION encodings; non-trivial = reader got past the first short read'),
-    'C14': dict(title='The OPEN corebgp sends reflects configuration and plugin capabilities', l0=True, lean=[],
+    'C14': dict(title='The OPEN corebgp sends reflects configuration and plugin capabilities', l0=True, lean=['CoreBGP.Props.C14'],
         rule='L0 differential on newOpenMessage+encode: AS grid incl. 65535/65536/2^32-1, hold times, capability lists 0..40 with codes 0..255 incl. 65, value lengths 0..300, sweeps across every 255-byte length-octet boundary'),
-    'C02': dict(title='OPEN handshake: exactly the valid OPENs are accepted', l0=True, lean=[],
+    'C02': dict(title='OPEN handshake: exactly the valid OPENs are accepted', l0=True, lean=['CoreBGP.Props.C02', 'CoreBGP.Props.C15'],
         trivial=[r'^open\.dec/err\.1\.2$', r'^open\.val/undecodable$'],
         rule='L0 differential on openMessage.decode / validate: field grids (version x AS field x hold x identifier nibble x capability) crossed with (local AS, remote AS, id) classes, grammar-generated parameter layouts, truncations and length-octet nudges, random bodies up to 4077'),
-    'C16': dict(title='UpdateDecoder partitions an UPDATE exactly as its length fields dictate', l0=True, lean=[],
+    'C16': dict(title='UpdateDecoder partitions an UPDATE exactly as its length fields dictate', l0=True, lean=['CoreBGP.Props.C16'],
         trivial=[r'^upd/c0\.'], rule='L0 differential on UpdateDecoder.Decode with recording callbacks: every byte string up to length 5 (thorough 6) over a 6-letter protocol alphabet, grammar-generated and mutated bodies, bodies to 4077 and above 65535; non-trivial = at least one callback ran'),
-    'C17': dict(title='UpdateDecoder reports errors with the RFC 7606 approach they require', l0=True, lean=[],
+    'C17': dict(title='UpdateDecoder reports errors with the RFC 7606 approach they require', l0=True, lean=['CoreBGP.Props.C17'],
         trivial=[r'^upd/c0\.'], rule='as C16 crossed with scripted callback behaviours (nil / discard / withdraw / notification / foreign error trees at each slot) and random error trees (depth<=6, errors.Join and %w) for UpdateNotificationFromErr'),
     'C18': dict(title='Typed path-attribute decoders accept exactly well-formed attributes', l0=True, lean=['CoreBGP.Props.C18'],
         rule='L0 differential per typed decoder: all 256 flag octets x every value length 0..13, boundary lengths up to 4096, all ORIGIN octets, AS_PATH segment grids, grammar-generated and mutated values'),
     'C19': dict(title='Prefix, NLRI, add-path and MP_REACH/MP_UNREACH decoders are exact', l0=True, lean=['CoreBGP.Props.C19'],
         rule='L0 differential: every prefix length octet 0..255 x exact/short/long for IPv4/IPv6 x plain/add-path, every truncation, generated and mutated lists; MP_REACH with every next-hop length octet x straddling attribute lengths, every flags octet'),
-    'C20': dict(title='Peer registry behaves as a consistent map and rejects unusable configs', l0=True, lean=[],
+    'C20': dict(title='Peer registry behaves as a consistent map and rejects unusable configs', l0=True, lean=['CoreBGP.Props.C20'],
         rule='full configuration grid (router id kind x remote/local address kind x AS {0,1,65535,65536,2^32-1} x hold {0,1,2,3,65535} x port {-1,0,1,179,65535,65536}) through NewServer+AddPeer; seeded sequential registry operation sequences (<=13 ops over 6 keys, with and without Serve/Close) compared step by step with the model and the abstract map'),
-    'C12': dict(title='Protocol errors damp the peer; Cease and transport faults do not', l0=True, lean=[],
+    'C12': dict(title='Protocol errors damp the peer; Cease and transport faults do not', l0=True, lean=['CoreBGP.Props.C12'],
         rule='exhaustive error histories up to length 4 (thorough 5) over the gap alphabet {0,1,10,100,299,300,301,1000 s} and random long ones through the real updateStartupDelay; every NOTIFICATION code 0..255 x sent/received x wrapped/bare through the real handleError'),
     'C05': dict(title='No remote input or API sequence can crash or wedge the process', l0=True, lean=['CoreBGP.Props.C05'], clauses=r'C05',
         rule='L0 differential with recover (PANIC is an output like any other) over every decoding entry point: the generators of C02/C08/C15/C16/C18/C19 plus oversize inputs (65535..70000 bytes with extreme length fields)'),
